@@ -15,7 +15,7 @@ import (
 // extended by every terminal that kills it must be rejected.
 
 var tokText = map[string][]string{
-	"SYLLABLE": {"C", "D", "E", "F", "G", "A", "B"}, "NUMBER": {"2", "3", "10", "4"}, "SYMBOL": {"m", "m7", "dim", "sus4"},
+	"SYLLABLE": {"C", "D", "E", "F", "G", "A", "B"}, "NUMBER": {"2", "0", "3", "00", "10", "4", "007"}, "SYMBOL": {"m", "m7", "dim", "sus4"},
 	"METADATA": {"k", "v w", "bpm", "1/2"}, "SHARP": {"#"}, "FLAT": {"b"}, "SLASH": {"/"}, "LBRA": {"["}, "RBRA": {"]"}, "COMMA": {","},
 	"REST": {"R"}, "UNDERSCORE": {"_"}, "LCBRA": {"{"}, "RCBRA": {"}"}, "EQUAL": {"="},
 }
